@@ -18,14 +18,14 @@
   handed-over children, the recursion into namesakes and the update of the caller's list reference); the link
   invariants in pointer terms; release exactly once; a clone realises the relabelled source (same shape, names
   and values at every depth); the walk the drivers print is the abstraction.
-  `abs_ops_statement` restates add/insert/clone/move through the spec state `Forest.St` (which also searches the
-  operands in `tops`); proved are the decomposed forms, the operand search of `St` itself is exercised by the
-  correspondence run only.  gnode_swap.c (children of two nodes exchanged) and gnode_relink.c (parent/predecessor
+  `abs_ops` states add/insert/clone/move through the spec state `Forest.St` (which also searches the operands in
+  `tops`): proved (`Lemmas/NodesSt.lean` ties `sibsOf?`/`detached?`/`topOf?`/`find?` to the located form).
+  gnode_swap.c (children of two nodes exchanged) and gnode_relink.c (parent/predecessor
   links below a node restored from the child/successor links) are modelled (`Store.swap`, `Store.relink`) and
   compared with the specification (`St.swap`, `St.relink`) by the correspondence run, incl. relink on wiped links;
   no theorem about them.
 -/
-import MptModel.Lemmas.NodesMove
+import MptModel.Lemmas.NodesSt
 namespace Mpt.C14
 open Mpt Mpt.Nodes Mpt.Forest
 
@@ -447,21 +447,36 @@ example : ∃ s', exStore.destroy exStore.fuel 2 = .ok (s', true) ∧ WF s' :=
 
 /-! ### abs_ops (summary statement) -/
 
-/-- the statement of `abs_ops` through the spec state `Forest.St`, whose operations first search their operands in
-    `tops` (`sibsOf?`, `detached?`, `topOf?`, `find?`) and then change the lists like the decomposed theorems say -/
-def abs_ops_statement : Prop :=
-  ∀ (s : Store) (sp : Forest.St), Realises s sp.tops → sp.next = s.nodes.length →
+/-- `abs_ops` through the specification state `Forest.St`, whose operations first search their operands in `tops`
+    (`sibsOf?`, `detached?`, `topOf?`, `find?`) and then change the lists: whenever the specification accepts
+    add / insert (by position or by name), tree clone, list clone or move, the C function's model succeeds on every
+    store that realises `sp.tops` and the new store realises the new `tops` (move: with the same count). -/
+theorem abs_ops (s : Store) (sp : Forest.St) (hR : Realises s sp.tops) (hn : sp.next = s.nodes.length) :
     (∀ p pos x byName sp', sp.add p pos x byName = some sp' → ∃ s', s.add p pos x byName = .ok s' ∧ Realises s' sp'.tops) ∧
     (∀ p pos x byName sp', sp.insert p pos x byName = some sp' → ∃ s', s.insert p pos x byName = .ok s' ∧ Realises s' sp'.tops) ∧
     (∀ x sp', sp.clone x 1 = some sp' → ∃ r, s.treeClone x = .ok r ∧ Realises r.1 sp'.tops) ∧
     (∀ x sp', sp.clone x 2 = some sp' → ∃ r, s.listClone s.fuel (some x) = .ok r ∧ Realises r.1 sp'.tops) ∧
-    (∀ a b sp' m, sp.move a b = some (sp', m) → ∃ slot r, s.move s.fuel slot (some a) b = .ok r ∧ Realises r.1 sp'.tops)
+    (∀ a b sp' m, sp.move a b = some (sp', m) →
+      ∃ slot r, s.move s.fuel slot (some a) b = .ok r ∧ r.2 = m ∧ Realises r.1 sp'.tops) :=
+  ⟨fun _ _ _ _ _ h => st_add_refines hR h, fun _ _ _ _ _ h => st_insert_refines hR h,
+   fun _ _ h => (st_clone_refines hR hn).1 h, fun _ _ h => (st_clone_refines hR hn).2 h,
+   fun _ _ _ _ h => st_move_refines hR h⟩
 
-/-- proved part of `abs_ops`: insert/add by position and by name, tree/list clone and move act on the abstraction
-    as the forest operations (`insertIdx` at `addIdx`/`nameIdx`, `relabel`, `merge`) say, for operands given in
-    located form (`SibsAt`/`find?` in a list of `tops`).  Missing w.r.t. `abs_ops_statement`: the operand search of
-    `Forest.St` is not connected to the located form (spec-internal; the correspondence run compares both). -/
-theorem abs_ops_partial {s : Store} {tops : List Forest} (hR : Realises s tops) :
+/-- the spec state of the example store; `add 0 0 2 byname` puts `2:a=v` behind its namesake `0:a` -/
+example : ∃ s', exStore.add 0 0 2 true = .ok s' ∧
+    ∀ sp', ({ tops := exTops, next := 3 } : Forest.St).add 0 0 2 true = some sp' → Realises s' sp'.tops := by
+  obtain ⟨s0, h0, _⟩ := abs_add_by_name (rest := []) (first := 0) (f := 0) (par := none)
+    (L := [.node 0 (some "a") none [.node 1 (some "b") none []]]) 0 exRealises (SibsAt.top (by rfl))
+  refine ⟨s0, h0, fun sp' h => ?_⟩
+  obtain ⟨s1, h1, r1⟩ := (abs_ops exStore { tops := exTops, next := 3 } exRealises rfl).1 0 0 2 true sp' h
+  rw [h0] at h1
+  cases h1
+  exact r1
+
+/-- `abs_ops` for operands given in located form (`SibsAt`/`find?` in a list of `tops`): insert/add by position and
+    by name, tree/list clone and move act on the abstraction as the forest operations (`insertIdx` at
+    `addIdx`/`nameIdx`, `relabel`, `merge`) say; `abs_ops` connects it to the operand search of `Forest.St`. -/
+theorem abs_ops_located {s : Store} {tops : List Forest} (hR : Realises s tops) :
     -- add by position / by name
     (∀ first x f n' v' cs' l0 L rest par (pos : Int), tops.Perm ([.node x n' v' cs'] :: l0 :: rest) → SibsAt first l0 L f par →
       (∃ s', s.add first pos x false = .ok s' ∧
@@ -511,7 +526,7 @@ theorem abs_ops_partial {s : Store} {tops : List Forest} (hR : Realises s tops) 
     exact move_refines (hR.perm hp.symm) hsa hsb hslot
 
 example : ∃ s', exStore.move exStore.fuel .loc (some 2) 0 = .ok (s', 0) ∧ WF s' := by
-  obtain ⟨s', h, r⟩ := (abs_ops_partial exRealises).2.2.2.2.2 2 0 0 0 _ _ _ _ [] none none .loc (List.Perm.refl _)
+  obtain ⟨s', h, r⟩ := (abs_ops_located exRealises).2.2.2.2.2 2 0 0 0 _ _ _ _ [] none none .loc (List.Perm.refl _)
     (SibsAt.top (p := 2) (j := 0) (by rfl)) (SibsAt.top (p := 0) (j := 0) (by rfl)) (by simp)
   have hm : (merge ([Tree.node 2 (some "a") (some "v") []].drop 0) [.node 0 (some "a") none [.node 1 (some "b") none []]] 0).2.2 = 0 := by
     simp [merge, findName, namesakes, midx, Tree.name]
